@@ -91,9 +91,10 @@ func runHist(h []int, _ json.RawMessage) (out xplore.Out) {
 			add(fs, "after restart")
 			outcome += fmt.Sprintf(" restart:violations=%d", len(fs))
 		}
-		// and a rescan of the restarted, caught-up wallet
-		x.Apply(walletlab.Ev{Kind: "rescan"})
-		if x.RescanIgnored {
+		// thorough: and a rescan of the restarted, caught-up wallet
+		if !W.Thorough {
+			// skip
+		} else if x.Apply(walletlab.Ev{Kind: "rescan"}); x.RescanIgnored {
 			out.Viols = append(out.Viols, xplore.Viol{Key: "rescan-request-not-taken-up", What: fmt.Sprintf("after restart after %v", W.Describe(h))})
 		} else if x.Synced() {
 			outcome += " rescan:" + check(x, "rescan after restart")
